@@ -191,14 +191,17 @@ def main(tier, seed, t0):
     items = [('tighter', 'Left'), ('tighter', 'Right')]
     for K in range(1, KMAX + 1):
         for assocs in itertools.product(('Left', 'Right'), repeat=K): items.append(('chain', (K, assocs)))
+    rnd = random.Random(seed)
     if tier == 'quick':
-        rnd = random.Random(seed)
         for assocs in rnd.sample(list(itertools.product(('Left', 'Right'), repeat=4)), 4): items.append(('chain', (4, assocs)))
+    else:
+        # thorough: every associativity assignment at length 5 as well (about 2 700 paths each)
+        for assocs in itertools.product(('Left', 'Right'), repeat=5): items.append(('chain', (5, assocs)))
     items.sort(key=lambda it: -(it[1][0] if it[0] == 'chain' else 0))
     merged, per = pmap(run_shape, items, tier)
     return finish(PROP, tier, seed, merged, t0, th=th,
         kernels=['eval.rs: ChainEvaluator::{new, give, run_top, run_top_popped, finish}, add_trace', 'core.rs: Precedence::tighter_than_when_before'],
-        bounds={'chain length': f'1..{KMAX} operators, every associativity assignment' + (' plus 4 of the 16 assignments at length 4 (VERIF_SEED)' if tier == 'quick' else ''),
+        bounds={'chain length': f'1..{KMAX} operators, every associativity assignment' + (' plus 4 of the 16 assignments at length 4 (VERIF_SEED)' if tier == 'quick' else ' plus all 32 assignments at length 5'),
                 'precedences': 'every f64 per operator: NaN, +inf, -inf, every real (ties included)', 'chain relation': 'arbitrary Boolean per (merged) operator pair'},
         outside=['chains longer than the bound', 'evaluation order of operand/operator expressions in Expr::Chain and the single-operator fast path (evaluator arm)', 'LvalueChainEvaluator (same algorithm on patterns)', 'Func::ChainSection',
                  'which builtins declare themselves chainable (try_chain implementations in lib.rs)'],
